@@ -247,6 +247,11 @@ def encoder_fields(ctx, f):
     return out, trees
 
 
+def _is_u8_value(e):
+    ty = e[2] if e[0] == "place" else (e[3] if e[0] in ("proj", "cast") else (e[4][2] if e[0] == "call" and len(e[4]) > 2 else None))
+    return ty == "u8"
+
+
 def decoder_fields(ctx, f, adt_path):
     """field name -> [(Mask, shift, line)] : bit extractions in the backward slice of each field
     of the aggregate(s) the decoder returns."""
@@ -266,6 +271,9 @@ def decoder_fields(ctx, f, adt_path):
                 got = None
                 if n[0] == "binop" and n[1] == "Shr" and _const_int(n[3]) is not None:
                     v, m = _unmask(n[2])
+                    if m is None and _is_u8_value(n[2]) and 0 < _const_int(n[3]) < 8:
+                        # `b >> k` on an octet keeps exactly the bits above k: the mask is implicit
+                        v, m = n[2], (0xFF << _const_int(n[3])) & 0xFF
                     if m is not None:
                         got = (m, _const_int(n[3]), expr_str(v))
                         seen.add(expr_str(n[2]))
